@@ -10,22 +10,45 @@ package ingest
 
 import (
 	"bytes"
+	"context"
 	"encoding/hex"
 	"encoding/json"
+	"fmt"
 	"math"
 	"os"
+	"path/filepath"
+	"regexp"
 	"sort"
 	"strconv"
+	"strings"
 	"testing"
 	"time"
 
+	"github.com/apache/arrow-go/v18/arrow"
+	"github.com/apache/arrow-go/v18/arrow/array"
+	"github.com/apache/arrow-go/v18/arrow/memory"
+	"github.com/apache/arrow-go/v18/parquet"
+	"github.com/apache/arrow-go/v18/parquet/pqarrow"
+	"github.com/basekick-labs/arc/internal/config"
+	"github.com/basekick-labs/arc/internal/storage"
 	"github.com/basekick-labs/arc/pkg/models"
+	"github.com/rs/zerolog"
 )
 
 type verifLPCase struct {
 	ID   int    `json:"id"`
 	Data string `json:"data"` // hex
 	Prec string `json:"prec"`
+	// Store: also push BatchToColumnar's output through a real ArrowBuffer
+	// (WriteColumnarRecord, FlushAll) and read the Parquet files back.
+	Store bool `json:"store,omitempty"`
+}
+
+// what one measurement of one body left in storage
+type verifLPStored struct {
+	M        string       `json:"m"`
+	Accepted bool         `json:"accepted"` // WriteColumnarRecord returned nil
+	Rows     [][][]string `json:"rows"`     // row = [[column hex, type, payload]...] sorted by column; types: null t(ime) now i f s b
 }
 
 // a typed value: [type, payload]; types: b(ool) i(nt64) u(int64) f(loat bits) s(tring hex) now
@@ -57,6 +80,8 @@ type verifLPOut struct {
 	Floats   [][2]string       `json:"floats"` // [raw hex, bits] for every candidate ParseFloat accepts
 	Stable   bool              `json:"stable"` // both parses returned the same records (timestamps aside)
 	Panic    string            `json:"panic,omitempty"`
+	Stored   []verifLPStored   `json:"stored,omitempty"`
+	StoreSkip string           `json:"store_skip,omitempty"` // why the storage stage was not run
 }
 
 func verifHex(s string) string { return hex.EncodeToString([]byte(s)) }
@@ -239,7 +264,167 @@ func verifLPOne(c verifLPCase) (o verifLPOut) {
 		}
 		o.Columnar = append(o.Columnar, oc)
 	}
+	if c.Store {
+		verifLPStore(c.ID, r2, now, cols, names, &o)
+	}
 	return
+}
+
+// ---------------------------------------------------------------------------------------
+// second observable: what is in the Parquet files after WriteColumnarRecord + FlushAll
+// ---------------------------------------------------------------------------------------
+
+var (
+	verifLPBuf     *ArrowBuffer
+	verifLPRoot    string
+	verifLPNameOK  = regexp.MustCompile(`^[a-zA-Z][a-zA-Z0-9_-]*$`) // api.isValidMeasurementName: handleWrite buffers nothing otherwise
+)
+
+func verifLPStore(id int, recs []*models.Record, now []bool, cols map[string]*models.ColumnarRecord, names []string, o *verifLPOut) {
+	if verifLPBuf == nil {
+		o.StoreSkip = "no-buffer"
+		return
+	}
+	if len(names) == 0 {
+		o.StoreSkip = "no-records"
+		return
+	}
+	for _, m := range names {
+		if len(m) > 128 || !verifLPNameOK.MatchString(m) {
+			o.StoreSkip = "measurement-name-rejected-by-handler"
+			return
+		}
+	}
+	db := fmt.Sprintf("verifdb%d", id)
+	nowTS := map[string]map[int64]bool{}
+	for i, r := range recs {
+		if now[i] {
+			if nowTS[r.Measurement] == nil {
+				nowTS[r.Measurement] = map[int64]bool{}
+			}
+			nowTS[r.Measurement][r.Timestamp] = true
+		}
+	}
+	ctx := context.Background()
+	acc := map[string]bool{}
+	for _, m := range names {
+		acc[m] = verifLPBuf.WriteColumnarRecord(ctx, db, cols[m]) == nil
+	}
+	if err := verifLPBuf.FlushAll(ctx); err != nil {
+		o.StoreSkip = "flush-error: " + err.Error()
+		return
+	}
+	rows := map[string][][][]string{}
+	werr := filepath.Walk(filepath.Join(verifLPRoot, db), func(p string, info os.FileInfo, err error) error {
+		if err != nil {
+			if os.IsNotExist(err) {
+				return nil
+			}
+			return err
+		}
+		if info.IsDir() || !strings.HasSuffix(p, ".parquet") {
+			return nil
+		}
+		rel, _ := filepath.Rel(filepath.Join(verifLPRoot, db), p)
+		m := strings.Split(filepath.ToSlash(rel), "/")[0]
+		data, err := os.ReadFile(p)
+		if err != nil {
+			return err
+		}
+		rs, err := verifLPDecode(data, nowTS[m])
+		if err != nil {
+			return fmt.Errorf("%s: %w", rel, err)
+		}
+		rows[m] = append(rows[m], rs...)
+		return nil
+	})
+	if werr != nil {
+		o.StoreSkip = "readback-error: " + werr.Error()
+		return
+	}
+	o.Stored = []verifLPStored{}
+	for _, m := range names {
+		rs := rows[m]
+		if rs == nil {
+			rs = [][][]string{}
+		}
+		sort.Slice(rs, func(i, j int) bool {
+			a, _ := json.Marshal(rs[i])
+			b, _ := json.Marshal(rs[j])
+			return string(a) < string(b)
+		})
+		o.Stored = append(o.Stored, verifLPStored{M: verifHex(m), Accepted: acc[m], Rows: rs})
+		delete(rows, m)
+	}
+	for m := range rows { // a file under a measurement that was never written
+		o.Stored = append(o.Stored, verifLPStored{M: verifHex(m), Accepted: false, Rows: rows[m]})
+	}
+}
+
+// verifLPDecode reads one Parquet file with the Arrow reader (independent of the writer code).
+func verifLPDecode(data []byte, nowTS map[int64]bool) ([][][]string, error) {
+	tbl, err := pqarrow.ReadTable(context.Background(), bytes.NewReader(data), parquet.NewReaderProperties(memory.DefaultAllocator),
+		pqarrow.ArrowReadProperties{}, memory.DefaultAllocator)
+	if err != nil {
+		return nil, err
+	}
+	defer tbl.Release()
+	n := int(tbl.NumRows())
+	rows := make([][][]string, n)
+	type kc struct {
+		name  string
+		cells [][]string
+	}
+	var all []kc
+	for ci := 0; ci < int(tbl.NumCols()); ci++ {
+		col := tbl.Column(ci)
+		k := kc{name: col.Name()}
+		for _, chunk := range col.Data().Chunks() {
+			for i := 0; i < chunk.Len(); i++ {
+				if chunk.IsNull(i) {
+					k.cells = append(k.cells, []string{"null", ""})
+					continue
+				}
+				switch a := chunk.(type) {
+				case *array.Timestamp:
+					if tt, ok := a.DataType().(*arrow.TimestampType); !ok || tt.Unit != arrow.Microsecond {
+						return nil, fmt.Errorf("column %s: timestamp unit is not microseconds", col.Name())
+					}
+					v := int64(a.Value(i))
+					if nowTS[v] {
+						k.cells = append(k.cells, []string{"now", ""})
+					} else {
+						k.cells = append(k.cells, []string{"t", strconv.FormatInt(v, 10)})
+					}
+				case *array.Int64:
+					k.cells = append(k.cells, []string{"i", strconv.FormatInt(a.Value(i), 10)})
+				case *array.Float64:
+					k.cells = append(k.cells, []string{"f", strconv.FormatUint(math.Float64bits(a.Value(i)), 10)})
+				case *array.String:
+					k.cells = append(k.cells, []string{"s", verifHex(a.Value(i))})
+				case *array.Boolean:
+					if a.Value(i) {
+						k.cells = append(k.cells, []string{"b", "t"})
+					} else {
+						k.cells = append(k.cells, []string{"b", "f"})
+					}
+				default:
+					return nil, fmt.Errorf("column %s: arrow type %s not expected from line protocol", col.Name(), chunk.DataType())
+				}
+			}
+		}
+		if len(k.cells) != n {
+			return nil, fmt.Errorf("column %s: %d cells for %d rows", col.Name(), len(k.cells), n)
+		}
+		all = append(all, k)
+	}
+	sort.Slice(all, func(i, j int) bool { return all[i].name < all[j].name })
+	for i := 0; i < n; i++ {
+		for _, k := range all {
+			rows[i] = append(rows[i], []string{verifHex(k.name), k.cells[i][0], k.cells[i][1]})
+		}
+	}
+	return rows, nil
 }
 
 func TestVerifLP(t *testing.T) {
@@ -250,6 +435,20 @@ func TestVerifLP(t *testing.T) {
 	var cases []verifLPCase
 	if err := json.Unmarshal(raw, &cases); err != nil {
 		t.Fatal(err)
+	}
+	for _, c := range cases {
+		if c.Store {
+			verifLPRoot = t.TempDir()
+			st, err := storage.NewLocalBackend(verifLPRoot, zerolog.Nop())
+			if err != nil {
+				t.Fatal(err)
+			}
+			defer st.Close()
+			verifLPBuf = NewArrowBuffer(&config.IngestConfig{MaxBufferSize: 1000000, MaxBufferAgeMS: 3600000, FlushWorkers: 2,
+				FlushQueueSize: 16, ShardCount: 4, Compression: "snappy", FlushTimeoutSeconds: 120}, st, zerolog.Nop())
+			defer verifLPBuf.Close()
+			break
+		}
 	}
 	outs := make([]verifLPOut, 0, len(cases))
 	for _, c := range cases {
